@@ -227,6 +227,7 @@ func (m *FloodSub) execPublish(prevHopPeerID peer.ID, pubMsg *publishChMsg) {
 		}
 	}
 	m.mtx.Unlock()
+	verifGate("floodsub.published", m, pubMsg.msg)
 }
 
 // AddSubscription adds a channel subscription, returning a subscription handle.
